@@ -363,7 +363,7 @@ Record gcase := mkGCase {
 Definition gerr_eqb (a b : gerr) : bool :=
   match a, b with
   | XNilTask, XNilTask | XMissingID, XMissingID | XCycle, XCycle | XCancel, XCancel => true
-  | XMissingFn x, XMissingFn y | XTask x, XTask y | XSkipped x, XSkipped y => str_eqb x y
+  | XMissingFn x, XMissingFn y | XTask x, XTask y | XSkipped x, XSkipped y | XNotFound x, XNotFound y => str_eqb x y
   | XDupDep a1 b1, XDupDep a2 b2 => str_eqb a1 a2 && str_eqb b1 b2
   | _, _ => false
   end.
